@@ -134,6 +134,7 @@ func init() {
 	register("c02", func(c *Ctx) {
 		c02Large(c)
 		c02xBatch(c)
+		c02xEdge(c)
 		nArch := 8 * c.Scale
 		for a := 0; a < nArch; a++ {
 			r := c.R.Fork()
@@ -214,7 +215,7 @@ func init() {
 				}
 			}
 			if !isV2 {
-				c02xLoaderCases(c, r, payload, lay, blks, orig)
+				c02xLoaderCases(c, r, payload, lay, blks, orig, false)
 			}
 		}
 	})
@@ -249,7 +250,7 @@ func c02xEmitLoad(c *Ctx, r *RNG, kind uint64, fast bool, failAt int, f []byte, 
 // c02xLoaderCases drives car.LoadCar and the internal carv1.LoadCar (Put path and PutMany path) over
 // the same derivations of one small CARv1 the readers get: the intact archive, every proper prefix,
 // single-byte corruptions of block data / digests, structural corruptions, and store faults.
-func c02xLoaderCases(c *Ctx, r *RNG, payload []byte, lay layout, blks []Blk, orig Val) {
+func c02xLoaderCases(c *Ctx, r *RNG, payload []byte, lay layout, blks []Blk, orig Val, allPos bool) {
 	nt := len(blks) > 0
 	variants := []struct {
 		kind uint64
@@ -278,7 +279,7 @@ func c02xLoaderCases(c *Ctx, r *RNG, payload []byte, lay layout, blks []Blk, ori
 	// single-byte corruptions inside block data / digest
 	for i := range blks {
 		for pos := lay.digStart[i]; pos < lay.secEnd[i]; pos++ {
-			if !c.Thorough && r.Intn(3) != 0 {
+			if !c.Thorough && !allPos && r.Intn(3) != 0 {
 				continue
 			}
 			g := append([]byte(nil), payload...)
@@ -371,4 +372,61 @@ func c02xBatch(c *Ctx) {
 			}
 		}
 	}
+}
+
+// c02xEdge: one fixed-shape CARv1 per run whose blocks sit on the edges the random archives rarely hit:
+// empty data under a hashing CID (v1 and v0), an identity CID with an empty digest, a one-byte block.
+// Every reader and every loader variant sees the intact archive, every proper prefix and every
+// single-byte corruption (3 masks) of digests and data.
+func c02xEdge(c *Ctx) {
+	r := c.R.Fork()
+	one := r.Bytes(1)
+	blks := []Blk{
+		{mkCid(1, 0x55, 0x12, -1, nil), nil},
+		{mkCid(1, pick(r, codecs), 0x00, -1, nil), nil},
+		{mkCid(0, 0x70, 0x12, -1, nil), nil},
+		{mkCid(1, 0x71, 0x13, -1, one), one},
+		{mkCid(1, 0x55, 0x12, 20, nil), nil},
+	}
+	// order varies with the seed
+	for i := len(blks) - 1; i > 0; i-- {
+		j := r.Intn(i + 1)
+		blks[i], blks[j] = blks[j], blks[i]
+	}
+	roots := genRoots(r, blks, false)
+	payload := refPayload(roots, blks)
+	hdrLen := len(refPayload(roots, nil))
+	lay := payloadLayout(nil, payload, blks, hdrLen)
+	orig := blksVal(blks)
+	o := defaultROpts
+	emit := func(kind uint64, f []byte, expect Val) {
+		hok, hdrs := scanTables(f)
+		in := VL{VN(kind), o.val(), VB(f), hok, hdrs, expect}
+		c.Emit("scan", in, runScanImpl(kind, o, f, r.Bool()), true)
+	}
+	boundary := map[int]bool{lay.hdrEnd: true}
+	for _, e := range lay.secEnd {
+		boundary[e] = true
+	}
+	for _, kind := range []uint64{0, 1, 2} {
+		for k := 0; k <= len(payload); k++ {
+			nb := VN(1)
+			if boundary[k] || k == len(payload) {
+				nb = VN(0)
+			}
+			emit(kind, payload[:k], VL{VT("trunc"), orig, nb})
+			c.Count("input:edge-prefix")
+		}
+		for i := range blks {
+			for pos := lay.digStart[i]; pos < lay.secEnd[i]; pos++ {
+				for _, mask := range []byte{0x01, 0x80, 0xff} {
+					g := append([]byte(nil), payload...)
+					g[pos] ^= mask
+					emit(kind, g, VL{VT("corrupt"), orig, VN(uint64(i))})
+					c.Count("input:edge-corrupt")
+				}
+			}
+		}
+	}
+	c02xLoaderCases(c, r, payload, lay, blks, orig, true)
 }
